@@ -1,5 +1,6 @@
 import GA.Drv.Iterq
 import GA.Drv.OwnE
+import GA.Drv.HeapE
 import GA.Model.BodyIter
 /-!
 `--body` view of the driver: the `iterq` scenarios and the iterator operations of the `own` engine
@@ -46,7 +47,7 @@ def own (kv : KV) : String :=
     let callBad := OwnE.faultIdx fault "call"
     let cloneBad := OwnE.faultIdx fault "clone"
     let bad := OwnE.faultIdx fault "dtor"
-    let c : Ctx := ⟨n, bad, fun i => callBad = some i, fun i => if cloneBad = some i then none else some (1000 + i), fun _ => .done, (0, none)⟩
+    let c : Ctx := ⟨n, bad, fun i => callBad = some i, fun i => if cloneBad = some i then none else some (1000 + i), fun _ => .done, (0, none), {}⟩
     let xs := (List.range n).map (· + 1)
     let op := kv.getD "op" ""
     let plA := kv.getD "kind" "tr" = "pl"
@@ -86,14 +87,14 @@ def own (kv : KV) : String :=
       if kv.getD "form" "o" ≠ "o" then "n/a" else
       let cc : Ctx := { n := n, bad := none, fpan := fun i => callBad = some i, cl := fun _ => none }
       let r := runFn cc Gen.Body.consumerDrop.body Gen.Body.gaFold []
-        ⟨⟨xs, 0, 0, 0, []⟩, ⟨[], 0, 0, 0, []⟩, false, 0, false, 0, false⟩
+        ⟨⟨xs, 0, 0, 0, []⟩, ⟨[], 0, 0, 0, []⟩, false, 0, false, 0, false, {}⟩
       OwnE.fmt (match r.2.1 with | .ret _ => "ok" | .panicked => "panicked" | .ub => "ub") (OwnE.canonEvs (r.1.filter visible)) []
     | "map" =>
       if kv.getD "form" "o" ≠ "o" then "n/a" else
       let f : Nat → Option Nat := fun i => if callBad = some i then none else some (1000 + i)
       let cc : Ctx := { n := n, bad := none, fpan := fun _ => false, cl := f }
       let r := runFn2 cc Gen.Body.consumerDrop.body Gen.Body.intrusiveDrop.body Gen.Body.gaMap []
-        ⟨⟨xs, 0, 0, 0, []⟩, ⟨[], 0, 0, 0, []⟩, false, 0, false, 0, false⟩
+        ⟨⟨xs, 0, 0, 0, []⟩, ⟨[], 0, 0, 0, []⟩, false, 0, false, 0, false, {}⟩
       let (res, out) : String × List Nat := match r.2.1 with
         | .ret (.arr l) => ("ok", l)
         | .panicked => ("panicked", [])
@@ -103,7 +104,7 @@ def own (kv : KV) : String :=
       let f : Nat → Option Nat := fun i => if callBad = some i then none else some (1000 + i)
       let cc : Ctx := { n := n, bad := none, fpan := fun _ => false, cl := f }
       let r := runFn cc Gen.Body.intrusiveDrop.body Gen.Body.generate []
-        ⟨⟨[], 0, 0, 0, []⟩, ⟨[], 0, 0, 0, []⟩, false, 0, false, 0, false⟩
+        ⟨⟨[], 0, 0, 0, []⟩, ⟨[], 0, 0, 0, []⟩, false, 0, false, 0, false, {}⟩
       let (res, out) : String × List Nat := match r.2.1 with
         | .ret (.arr l) => ("ok", l)
         | .panicked => ("panicked", [])
@@ -122,10 +123,10 @@ def own (kv : KV) : String :=
         else match answers[j]? with
           | some (some x) => .yield x
           | _ => .done
-      let cc : Ctx := { n := n, bad := none, fpan := fun _ => false, cl := fun _ => none, src := src, hint := hint }
+      let cc : Ctx := { n := n, bad := bad, fpan := fun _ => false, cl := fun _ => none, src := src, hint := hint }
       let f := if kv.getD "try" "1" = "1" then Gen.Body.tryFromIter else Gen.Body.fromIter
       let r := runFn cc Gen.Body.intrusiveDrop.body f []
-        ⟨⟨[], 0, 0, 0, []⟩, ⟨[], 0, 0, 0, []⟩, false, 0, false, 0, false⟩
+        ⟨⟨[], 0, 0, 0, []⟩, ⟨[], 0, 0, 0, []⟩, false, 0, false, 0, false, {}⟩
       let (res, out) : String × List Nat := match r.2.1 with
         | .ret (.ok (.arr l)) => ("ok", l)
         | .ret (.arr l) => ("ok", l)
@@ -134,5 +135,28 @@ def own (kv : KV) : String :=
         | _ => ("ub", [])
       OwnE.fmt res (OwnE.canonEvs (r.1.filter visible)) out
     | _ => "n/a"
+
+/-- boxed `generate` through the interpreted bodies of `generate` (src/impl_alloc.rs) and
+    `Drop for DeallocOnDrop`, in the shape the heap engine reports; the later drop of the returned
+    box (elements, then the block when the layout has a size) is `alloc`'s and appended here -/
+def bodyBoxed (esz al n : Nat) (f : Nat → Option GA.Own.Id) (allocOk : Bool) : GA.Heap.BoxedOut :=
+  let c : Ctx := { n := n, bad := none, fpan := fun _ => false, cl := f,
+                   ext := { esz := esz, ealign := al, allocOk := allocOk } }
+  let r := runFnB c Gen.Body.intrusiveDrop.body Gen.Body.deallocGuardDrop.body Gen.Body.boxedGenerate []
+    ⟨⟨[], 0, 0, 0, []⟩, ⟨[], 0, 0, 0, []⟩, false, 0, false, 0, false, {}⟩
+  let conv : AEv → GA.Heap.AEv
+    | .alloc b s a => .alloc b s a
+    | .allocFail s a => .allocFail s a
+    | .dealloc b s a => .dealloc b s a
+    | .handleAllocError => .handleAllocError
+    | .nullDeref => .nullDeref
+  let at0 := r.2.2.ext.atrace.map conv
+  match r.2.1 with
+  | .ret (.boxed _ out) =>
+    ⟨at0 ++ (if n * esz = 0 then [] else [.dealloc 1 (n * esz) al]), r.1 ++ out.map .drop, .ok out⟩
+  | .panicked => ⟨at0, r.1, if r.2.2.ext.aborted then .aborted else .panicked⟩
+  | _ => ⟨at0, r.1, .ub⟩
+
+def heap (kv : KV) : String := HeapE.answer kv bodyBoxed true
 
 end GA.Drv.BodyE
